@@ -99,7 +99,7 @@ namespace worlds
       {
         for (double x : {-1e5, 0.0, 0.7e5, 2.3e5, 4.1e5, 5.9e5, 7.2e5, 9.4e5, 12e5})
           for (double d : {0.0, 2e4, 8e4, 1.2e5, 2.5e5, 5e5})
-            out.push_back({x, -d, d});
+            out.push_back({x, CART_TOP - d, d});
       }
     else
       {
